@@ -16,6 +16,7 @@ PARTIAL = [
     "curves, surfaces and volumes (helper level; refineDir in every direction of a surface / volume; refine_knotvector on any subset of the two / three directions: refineKnotvector_preserves_surface, refineDir_preserves_volume, refineKnotvector_preserves_volume) are proved end-to-end under explicit hypotheses: well-formed object (CurveWF / SurfWF / VolWF), knot vector clamped at the END of each refined direction, 0 <= tol and tolerance separation of the old knots and the bisection knots of each refined direction (equal or further apart than tol), all stated on the ORIGINAL object",
     "rational objects: the theorems are about the homogeneous net (coordinatewise); the projection step is C01/C09's",
     "guards stated as hypotheses (not used by the proofs, mirroring the code / driver): refineA54Rows_isocurve / knotRefinementRows_isocurve require rectangular rows (ragged: IndexError in the code, [] padding in the model) and refineA54Rows_isocurve a non-empty X (the helper raises 'Cannot refine' before A5.4); refinement_net_unique needs AllActive of the refined knot vector (necessary)",
+    "which span search the object-level models use (statement audit 5, I3): insertKnotDir / insertKnotDirCoded / removeKnotDir / a54Init(Rows) and the volume-rows wrappers call findSpanLinear, the search WITHOUT the step back of the F-01b repair (the code's find_span_linear = findSpanLinearR); they differ only at u = U_n of a knot vector with an empty last domain span (U_{n-1} = U_n), which every theorem excludes (KvWF.last, DirReqOk.hi) - there the models are NOT the code (real insert_knot(c,[5],[1]) on U = [0,1,2,3,4,5,5,6,7,8], degree 3, uses span 4, the model span 5: different nets) and the driver ops ins / insm / insc / ops I,R / rowsvol I,R answer OUT: the model line is not compared (core.py, evidence correspondence.outside_model), the oracle alone judges; refinement needs no OUT (a, b of A5.4 only bound the reworked window: refc = refine_knotvector on 240 random unclamped knot vectors with an empty last span)",
 ]
 
 
